@@ -213,6 +213,34 @@ def with_io_last(models):
     return out
 
 
+def with_sctp(models, only=None):
+    """The models plus a copy of each (or of those whose name is in `only`) in which the node listens on SCTP and every
+    configured peer is an SCTP peer: the node's SCTP branches (listen / accept / dial with connectx / sctp_send / close without
+    SO_LINGER) are separate code from the TCP ones and are judged by the same monitors on the fake `sctp` module."""
+    import copy as _copy
+    out = list(models)
+    for m in models:
+        if only is not None and m.name not in only:
+            continue
+        c = _copy.copy(m)
+        c.name = m.name + "/sctp"
+        c.cfg = _copy.deepcopy(m.cfg)
+        c.cfg.setdefault("node", {})["transport"] = "sctp"
+        out.append(c)
+    return out
+
+
+def sctp_copies(models, only=None):
+    """Only the SCTP copies (see with_sctp) - run as a pass of their own so that they do not eat into the time budget of the others."""
+    return with_sctp(models, only)[len(models):]
+
+
+def merge_tot(tot, t2):
+    for k in tot:
+        tot[k] = max(tot[k], t2[k]) if k == "max_depth" else tot[k] + t2[k]
+    return tot
+
+
 def determinism_selftest(model):
     """Execute one non-trivial history of the model twice in fresh worlds and require identical keys, violations and
     observation logs.  Any difference means the harness does not own all nondeterminism: abort (exit 2), never a verdict."""
